@@ -68,7 +68,8 @@ func (aw *apreqWorld) mint(tag string) ([]byte, error) {
 // presentAPReq verifies wire once and logs inv/ret; auth identifies the authenticator in the trace
 func (aw *apreqWorld) presentAPReq(lg *c02log, t0 time.Time, wire []byte, auth absAuth) string {
 	op := atomic.AddInt64(&c02op, 1)
-	lg.add(atomic.AddInt64(&c02seq, 1), map[string]interface{}{"ev": "inv", "op": op, "a": auth, "now": aw.units(time.Since(t0))})
+	s0 := atomic.AddInt64(&c02seq, 1)
+	now0 := aw.units(time.Since(t0))
 	r := "other"
 	var ap messages.APReq
 	if err := ap.Unmarshal(wire); err == nil {
@@ -80,11 +81,16 @@ func (aw *apreqWorld) presentAPReq(lg *c02log, t0 time.Time, wire []byte, auth a
 			r = "fresh"
 		} else if ke, isK := verr.(messages.KRBError); isK && ke.ErrorCode == errorcode.KRB_AP_ERR_REPEAT {
 			r = "replay"
+		} else if isK && ke.ErrorCode == errorcode.KRB_AP_ERR_SKEW {
+			// refused for its time before the cache was asked: no event of the cache (the authenticator has left the window)
+			return "skew"
 		} else if verr != nil {
 			r = "other:" + verr.Error()
 		}
 	}
-	lg.add(atomic.AddInt64(&c02seq, 1), map[string]interface{}{"ev": "ret", "op": op, "r": r, "now": aw.units(time.Since(t0))})
+	s1 := atomic.AddInt64(&c02seq, 1)
+	lg.add(s0, map[string]interface{}{"ev": "inv", "op": op, "a": auth, "now": now0})
+	lg.add(s1, map[string]interface{}{"ev": "ret", "op": op, "r": r, "now": aw.units(time.Since(t0))})
 	return r
 }
 
@@ -167,6 +173,12 @@ func c02apreqSched(tw *traceWriter, r *rand.Rand, ng int) error {
 // mintDated returns a valid AP-REQ of client uniq whose authenticator is dated now, just inside the past end or just inside the
 // future end of the skew window
 func (aw *apreqWorld) mintDated(uniq, when string) ([]byte, error) {
+	w, _, err := aw.mintDatedAt(uniq, when)
+	return w, err
+}
+
+// mintDatedAt also returns the client time the authenticator carries
+func (aw *apreqWorld) mintDatedAt(uniq, when string) ([]byte, time.Time, error) {
 	c := map[string]string{}
 	for k, v := range c01nominal {
 		c[k] = v
@@ -174,12 +186,13 @@ func (aw *apreqWorld) mintDated(uniq, when string) ([]byte, error) {
 	c["ctime"] = when
 	m, err := mintAPReq(aw.w, c, c01Settings{Skew: "default", ClientAddr: "unset", Override: "none"}, aw.r, aw.origin, time.Now(), uniq, nil)
 	if err != nil {
-		return nil, err
+		return nil, time.Time{}, err
 	}
 	if m.wire == nil {
-		return nil, fmt.Errorf("dated AP-REQ did not marshal")
+		return nil, time.Time{}, fmt.Errorf("dated AP-REQ did not marshal")
 	}
-	return m.wire, nil
+	ctMs, _ := m.conc["ctime"].(int64)
+	return m.wire, aw.origin.Add(time.Duration(ctMs) * time.Millisecond), nil
 }
 
 // c02apreqDated: sequential histories through VerifyAPREQ on the process-wide cache AS AN APPLICATION GETS IT (created by the first
@@ -236,47 +249,47 @@ func c02apreqBackground(tw *traceWriter, r *rand.Rand, n int) error {
 	skew := 3 * time.Second
 	aw.st = service.NewSettings(aw.w.kt, service.DecodePAC(false), service.MaxClockSkew(skew))
 	aw.unitMs = 3
-	type hist struct {
-		wire   []byte
-		pauses []int
-	}
-	var hs []hist
+	var mu sync.Mutex
+	var wg sync.WaitGroup
+	var firstErr error
 	for i := 0; i < n; i++ {
-		w, err := aw.mintDated(fmt.Sprintf("c02-bg-%d-%d", aw.r.Int31(), i), "now")
+		i := i
+		var pauses []int
+		total := 0
+		for total < 1700 {
+			d := 150 + r.Intn(600)
+			if total+d > 1800 {
+				break
+			}
+			pauses = append(pauses, d)
+			total += d
+		}
+		uniq := fmt.Sprintf("c02-bg-%d-%d", aw.r.Int31(), i)
+		mu.Lock() // minting uses the world's random source
+		wire, ct, err := aw.mintDatedAt(uniq, "now")
+		mu.Unlock()
 		if err != nil {
 			return err
 		}
-		var p []int
-		total := 0
-		for total < 2300 {
-			d := 150 + r.Intn(700)
-			if total+d > 2400 {
-				break
-			}
-			p = append(p, d)
-			total += d
-		}
-		hs = append(hs, hist{w, p})
-	}
-	var mu sync.Mutex
-	var wg sync.WaitGroup
-	for _, h := range hs {
-		h := h
 		wg.Add(1)
 		go func() {
 			defer wg.Done()
 			lg := &c02log{}
 			t0 := time.Now()
-			aw.presentAPReq(lg, t0, h.wire, absAuth{0, 0, 0, 0})
-			for _, d := range h.pauses {
+			// the authenticator's own client time, in units, relative to the start of the history (a whole second plus microseconds
+			// around the instant it was made: up to a second before or after)
+			a := absAuth{0, aw.units(ct.Sub(t0)), 0, 0}
+			aw.presentAPReq(lg, t0, wire, a)
+			for _, d := range pauses {
 				time.Sleep(time.Duration(d) * time.Millisecond)
-				aw.presentAPReq(lg, t0, h.wire, absAuth{0, 0, 0, 0})
+				aw.presentAPReq(lg, t0, wire, a)
 			}
 			mu.Lock()
-			lg.flush(tw, map[string]interface{}{"kind": "apreq-background", "word": h.pauses})
+			lg.flush(tw, map[string]interface{}{"kind": "apreq-background", "word": pauses})
 			mu.Unlock()
 		}()
 	}
+	_ = firstErr
 	wg.Wait()
 	return nil
 }
